@@ -26,6 +26,8 @@ class BlockInterleavedLinearOperator(BlockLinearOperator):
             The dimension that specifies the blocks.
     """
 
+    _interleaved_blocks = True
+
     @property
     def num_blocks(self) -> int:
         return self.base_linear_op.size(-3)
